@@ -33,6 +33,7 @@ type runConfig struct {
 	curJob                *job
 	verbose               bool
 	noIfConv              bool
+	pathBudget            time.Duration
 	slicing               bool
 	profile               bool
 	siteMu                sync.Mutex
@@ -44,9 +45,9 @@ type runConfig struct {
 func defaultConfig(tier string) *runConfig {
 	c := &runConfig{
 		tier: tier, workers: min(16, runtime.NumCPU()), solverKind: "z3-new",
-		queryTimeoutMs: 400, fallbackSolver: "cvc5", fallbackTimeoutMs: 30000, unwind: 1000, maxInstrs: 20_000_000, maxDepth: 400,
+		queryTimeoutMs: 400, fallbackSolver: "cvc5", fallbackTimeoutMs: 30000, unwind: 20000, maxInstrs: 150_000_000, maxDepth: 400,
 		maxDecisions: 20000, maxValues: 300, maxAlloc: 1 << 22, maxViolationsPerLabel: 3,
-		maxPaths: 400000, harnessBudget: 150 * time.Second,
+		maxPaths: 400000, harnessBudget: 150 * time.Second, pathBudget: 60 * time.Second,
 	}
 	if tier == "thorough" {
 		c.queryTimeoutMs = 2000
@@ -93,7 +94,7 @@ func (w *worker) runPath(j *job, it *workItem) {
 			return
 		}
 	}
-	p := &pathState{item: it, unwind: in.cfg.unwind, slicing: in.cfg.slicing}
+	p := &pathState{item: it, unwind: in.cfg.unwind, slicing: in.cfg.slicing, start: time.Now()}
 	in.path = p
 	in.logging = true
 	in.depth = 0
@@ -138,6 +139,9 @@ func (w *worker) runPath(j *job, it *workItem) {
 	j.decisions += int64(len(p.trace))
 	if len(p.trace) > j.maxDecisions {
 		j.maxDecisions = len(p.trace)
+	}
+	if status == "infeasible" {
+		j.infeasibleWhy[msg]++
 	}
 	switch status {
 	case "ok", "panic", "infeasible", "stop":
